@@ -35,6 +35,8 @@ def extract_inputs(c, start):
         "gdelay": int(d.get("GREENHOUSE_MONTHS", 0)), "gmult": float(c.get("GREENHOUSE_AREA_MULTIPLIER", 0.0)),
         "ggain": float(c.get("GREENHOUSE_GAIN_PCT", 0.0)), "gglobal": float(c["INITIAL_GLOBAL_CROP_AREA"]),
         "gfrac": float(c["INITIAL_CROP_AREA_FRACTION"]),
+        "fat_base": float(c["BASELINE_CROP_FAT"]), "protein_base": float(c["BASELINE_CROP_PROTEIN"]),
+        "fat_ratio": float(rot.get("FAT_RATIO", 1.0)), "protein_ratio": float(rot.get("PROTEIN_RATIO", 1.0)),
     }
 
 
@@ -52,6 +54,8 @@ def observe(oc, gh, time_consts, area):
     obs["prod_dtype"] = str(np.asarray(oc.production.kcals).dtype)
     obs["prod_fat"] = fl(oc.production.fat)
     obs["prod_protein"] = fl(oc.production.protein)
+    obs["ghk_fat"] = fl(time_consts["greenhouse_crops"].fat)
+    obs["ghk_protein"] = fl(time_consts["greenhouse_crops"].protein)
     obs["ghk_units"] = time_consts["greenhouse_crops"].kcals_units
     return obs
 
